@@ -647,6 +647,48 @@ func rulesC09(w *World, o *Out) {
 	}
 	o.Count("C09.R2 may-panic sites examined", nSites, 20)
 	// ---- R3 ----
+	// a recover() that is not called directly by a deferred function returns nil and stops nothing: the code
+	// states the belief "panics are contained here" and the language says otherwise
+	deferred := map[*ssa.Function]bool{}
+	for _, f := range w.ProdFuncs {
+		for _, b := range f.Blocks {
+			for _, in := range b.Instrs {
+				if d, ok := in.(*ssa.Defer); ok {
+					switch v := d.Call.Value.(type) {
+					case *ssa.MakeClosure:
+						if fn, ok := v.Fn.(*ssa.Function); ok {
+							deferred[fn] = true
+						}
+					case *ssa.Function:
+						deferred[v] = true
+					}
+					if sc := d.Call.StaticCallee(); sc != nil {
+						deferred[sc] = true
+					}
+				}
+			}
+		}
+	}
+	nRec := 0
+	for _, f := range w.ProdFuncs {
+		for _, b := range f.Blocks {
+			for _, in := range b.Instrs {
+				c, ok := in.(*ssa.Call)
+				if !ok {
+					continue
+				}
+				if bi, ok := c.Call.Value.(*ssa.Builtin); !ok || bi.Name() != "recover" {
+					continue
+				}
+				nRec++
+				if !deferred[f] {
+					o.Fail("C09.R3", w.FuncKey(f)+"|recover() is called directly by a deferred function", w.Pos(c.Pos()),
+						"recover only stops a panic when the deferred function itself calls it; here it is called from a function that is (at most) called by a deferred function, so it always returns nil and the panic keeps unwinding into the block-production path")
+				}
+			}
+		}
+	}
+	o.Count("C09.R3 recover() calls in production code", nRec, 3)
 	eb := w.MustFunc(o, "x/skyway", "", "EndBlocker")
 	if eb != nil {
 		o.Check("C09.R3", "skyway.EndBlocker establishes recover", hasRecoverFrame(eb) && recoverFirst(eb), w.Pos(eb.Pos()), "the deferred recover must be installed before any fallible call")
